@@ -473,7 +473,7 @@ var spEdits = []string{"dupOperationID", "dropPathParam", "renamePathParam", "ex
 	"arrayNoItemsSchema", "nestedItemsNoItems", "requiredUndefined", "requiredViaAdditional", "dupInheritedProperty",
 	"circularAncestry", "overlapPaths", "badPatternParam", "badPatternHeader", "badPatternSchema", "badPatternItems",
 	"unresolvedSchemaRef", "unresolvedParamRef", "noPaths", "emptyPaths", "bodyViaSharedParam", "noResponses", "refWithSiblingDefault",
-	"refWithExtension", "pathParamNoPlaceholder", "requiredViaAdditionalSchema", "sameBodyNameTwice", "tupleDefaults", "diamondAncestry", "diamondSharedProperty", "cycleBelowStart", "oddPropertyNames", "aliasCycle", "sameResponseCodeTwice", "valuesBesideRefs"}
+	"refWithExtension", "pathParamNoPlaceholder", "requiredViaAdditionalSchema", "sameBodyNameTwice", "tupleDefaults", "diamondAncestry", "diamondSharedProperty", "cycleBelowStart", "oddPropertyNames", "aliasCycle", "sameResponseCodeTwice", "valuesBesideRefs", "badDefaultAndExample", "trailingSlashTwin", "requiredPatternNextToBadPattern", "zeroDefaults", "tupleItemsInOperation"}
 
 func (g *spgen) applyEdit(doc M, kind string) bool {
 	ops := docOps(doc)
@@ -975,6 +975,100 @@ func (g *spgen) applyEdit(doc M, kind string) bool {
 			defs["WithValues"] = M{"type": "array", "items": ref(), key: L{M{"n": 2}}}
 		default:
 			defs["WithValues"] = M{"type": "object", "additionalProperties": ref(), key: M{"k": M{"n": 3}}}
+		}
+		return true
+	case "badDefaultAndExample":
+		// a default its schema rejects (an error) and an example its schema rejects (a warning) in one otherwise clean
+		// document: both are reported, in both modes — the examples are judged whatever the defaults stage found
+		defs, _ := doc["definitions"].(M)
+		if defs == nil {
+			defs = M{}
+			doc["definitions"] = defs
+		}
+		switch g.rng.Intn(3) {
+		case 0:
+			defs["BadValues"] = M{"type": "object", "properties": M{
+				"d": M{"type": "integer", "default": "not a number"}, "e": M{"type": "string", "example": 7}}}
+		case 1:
+			defs["BadDefault"] = M{"type": "string", "maxLength": 1, "default": "too long"}
+			defs["BadExample"] = M{"type": "integer", "minimum": 3, "example": 1}
+		default:
+			defs["BadValues"] = M{"type": "array", "items": M{"type": "boolean", "default": "x", "example": "y"}}
+		}
+		return true
+	case "zeroDefaults":
+		// defaults that are the zero value of their type and rejected by their own schema: still defaults, still judged
+		defs, _ := doc["definitions"].(M)
+		if defs == nil {
+			defs = M{}
+			doc["definitions"] = defs
+		}
+		switch g.rng.Intn(4) {
+		case 0:
+			defs["Zero"] = M{"type": "integer", "minimum": 1, "default": 0}
+		case 1:
+			defs["Zero"] = M{"type": "string", "minLength": 1, "default": ""}
+		case 2:
+			defs["Zero"] = M{"type": "object", "properties": M{"flag": M{"type": "string", "default": false}, "n": M{"type": "number", "enum": L{1, 2}, "default": 0}}}
+		default:
+			defs["Zero"] = M{"type": "boolean", "enum": L{true}, "default": false}
+		}
+		return true
+	case "trailingSlashTwin":
+		// breaks no rule: two templates of one method that differ by a trailing slash (after placeholder stripping too)
+		if paths == nil {
+			return false
+		}
+		op := func(id string) M {
+			return M{"operationId": id, "responses": M{"200": M{"description": "d"}}}
+		}
+		idp := func(n string) M { return M{"name": n, "in": "path", "required": true, "type": "string"} }
+		if g.p(50) {
+			paths["/twin"] = M{"get": op("twinA")}
+			paths["/twin/"] = M{"get": op("twinB")}
+		} else {
+			a, b := op("twinA"), op("twinB")
+			a["parameters"], b["parameters"] = L{idp("id")}, L{idp("itemId")}
+			paths["/twin/{id}/"] = M{"get": a}
+			paths["/twin/{itemId}"] = M{"get": b}
+		}
+		return true
+	case "requiredPatternNextToBadPattern":
+		// a required name that only a pattern provides, next to patterns that do not compile: the undefined-required rule is
+		// satisfied by the matching pattern and every bad pattern is reported, in whatever order the map hands them out
+		defs, _ := doc["definitions"].(M)
+		if defs == nil {
+			defs = M{}
+			doc["definitions"] = defs
+		}
+		pp := M{"^na": M{"type": "string"}}
+		for i := 0; i < 1+g.rng.Intn(4); i++ {
+			pp[fmt.Sprintf("(nb%d", i)] = M{"type": "string"}
+		}
+		defs["Thing"] = M{"type": "object", "required": L{"name"}, "patternProperties": pp}
+		return true
+	case "tupleItemsInOperation":
+		// breaks no rule: `items` given as a list of schemas in a response body or a body parameter
+		o, ok := pickOp()
+		if !ok {
+			return false
+		}
+		tuple := M{"type": "array", "items": L{M{"type": "string"}, M{"type": "integer"}}}
+		if g.p(50) {
+			resp, _ := o.op["responses"].(M)
+			if resp == nil {
+				return false
+			}
+			resp["200"] = M{"description": "d", "schema": tuple}
+		} else {
+			var keep L
+			for _, p := range params(o) {
+				if pm, _ := p.(M); pm != nil && (pm["in"] == "body" || pm["in"] == "formData") {
+					continue
+				}
+				keep = append(keep, p)
+			}
+			o.op["parameters"] = append(keep, M{"name": "tup", "in": "body", "schema": tuple})
 		}
 		return true
 	case "noPaths":
